@@ -791,12 +791,14 @@ class RefResolver(object):
                 a URI fragment to resolve within it
         """
 
+        # Percent-decode first: the leading separator may be escaped too
+        fragment = unquote(fragment)
         if fragment.startswith(u"/"):
             # Only the leading separator: an empty first token is a key
             fragment = fragment[1:]
-            parts = unquote(fragment).split(u"/")
+            parts = fragment.split(u"/")
         else:
-            parts = unquote(fragment).split(u"/") if fragment else []
+            parts = fragment.split(u"/") if fragment else []
 
         for part in parts:
             part = part.replace(u"~1", u"/").replace(u"~0", u"~")
